@@ -8,10 +8,13 @@ From J5V.proofs Require Import RulesProofs RulesGenProofs.
 Import ListNotations.
 Local Open Scope N_scope.
 
-(* The property at full strength: for EVERY declaration the compiler accepts (over a
-   well-formed enum) and every value of the compiled field, the validator accepts
-   iff the declared rules hold. [re_match] is any regular-expression engine that
-   decides the published id62 pattern the way C20's matcher does. *)
+(* The property at full strength: for EVERY declaration the compiler accepts (over
+   an enum whose value names are pairwise different, as protobuf requires) and
+   every value of the compiled field, the validator accepts iff the declared
+   rules hold. [re_match] is any regular-expression engine that decides the
+   published id62 pattern the way C20's matcher does. All values: all of Z for
+   integers, all strings, all byte strings, all lists; plain / required /
+   optional / array forms; every rule present or absent. *)
 Definition C12_full_statement : Prop :=
   forall (re_match : str -> str -> bool),
     (forall s, re_match Id62Gen.pattern_string s = id62_shape s) ->
@@ -21,68 +24,42 @@ Definition C12_full_statement : Prop :=
       fvalue_typed d fv = true ->
       validate_sem re_match (defined_numbers env) o fv = rule_sem re_match env d fv.
 
-(* What is proved: the same for every ADMISSIBLE declaration — integer bounds
-   representable in the declared format and minimum <= maximum. All values: all of
-   Z for integers, all strings, all byte strings, all lists; required / optional /
-   array forms; every rule present or absent. *)
-Theorem C12_partial :
-  forall (re_match : str -> str -> bool),
-    (forall s, re_match Id62Gen.pattern_string s = id62_shape s) ->
-    forall env idx d o fv,
-      admissible env d = true ->
-      write_prop env idx d = Ok o ->
-      fvalue_typed d fv = true ->
-      validate_sem re_match (defined_numbers env) o fv = rule_sem re_match env d fv.
+Theorem C12_full : C12_full_statement.
 Proof. exact c12_main. Qed.
-Print Assumptions C12_partial.
+Print Assumptions C12_full.
 
-(* What is missing from the full statement, with the witnesses on the faithful
-   model (both replay on the real compiler + validator, KNOWN_FINDINGS.txt): *)
+(* what makes the full statement true: the compiler rejects the two kinds of
+   integer rules whose compiled form would mean something else (both were
+   accepted before the fix recorded in KNOWN_FINDINGS.txt) *)
+Theorem C12_compiled_bounds_admissible : forall k r c,
+  write_int_rules k r = Ok c -> int_adm k r = true.
+Proof. intros k r c H. exact (proj1 (write_int_ok k r c H)). Qed.
+Print Assumptions C12_compiled_bounds_admissible.
 
-(* (1) minimum > maximum is accepted by the compiler; buf.validate then reads the
-   pair as an EXCLUDED range, so the validator accepts 11 although no value
-   satisfies "minimum = 10, maximum = 5" *)
-Theorem C12_inverted_bounds_refuted :
-  exists env idx d o fv,
-    wf_env env = true /\ write_prop env idx d = Ok o /\ fvalue_typed d fv = true /\
-    validate_sem re_class_count (defined_numbers env) o fv = true /\
-    rule_sem re_class_count env d fv = false.
+(* minimum > maximum: buf.validate would read it as an excluded range *)
+Theorem C12_inverted_bounds_rejected : forall k a b xa xb,
+  (b < a)%Z -> is_ok (write_int_rules k (IR (Some a) (Some b) xa xb)) = false.
 Proof.
-  exists (EE [] []), 0,
-         (P [97] false false (PSingle (TInt I32 (Some (IR (Some 10%Z) (Some 5%Z) None None)) None)) []).
-  eexists. exists (FOne (VInt 11%Z)).
-  split; [reflexivity|]. split; [vm_compute; reflexivity|]. repeat split; vm_compute; reflexivity.
+  intros k a b xa xb H.
+  destruct (write_int_rules k (IR (Some a) (Some b) xa xb)) as [c| | |] eqn:E; try reflexivity.
+  apply write_int_ok in E as [Hadm _]. unfold int_adm in Hadm. cbn in Hadm.
+  apply andb_true_iff in Hadm as [_ Hle]. apply Z.leb_le in Hle. exfalso. apply (Z.lt_irrefl a). eapply Z.le_lt_trans; eauto.
 Qed.
-Print Assumptions C12_inverted_bounds_refuted.
+Print Assumptions C12_inverted_bounds_rejected.
 
-(* (2) a bound outside the range of the declared format is truncated by the Go
-   conversion int64 -> int32: "maximum = 5000000000" on INT32 becomes
-   lte = 705032704 and 2000000000 is rejected *)
-Theorem C12_truncated_bound_refuted :
-  exists env idx d o fv,
-    wf_env env = true /\ write_prop env idx d = Ok o /\ fvalue_typed d fv = true /\
-    validate_sem re_class_count (defined_numbers env) o fv = false /\
-    rule_sem re_class_count env d fv = true.
+(* a bound outside the range of the format: the Go conversion would truncate it *)
+Theorem C12_out_of_range_bound_rejected : forall k r,
+  opt_bound_ok k (ir_min r) && opt_bound_ok k (ir_max r) = false -> is_ok (write_int_rules k r) = false.
 Proof.
-  exists (EE [] []), 0,
-         (P [97] false false (PSingle (TInt I32 (Some (IR None (Some 5000000000%Z) None None)) None)) []).
-  eexists. exists (FOne (VInt 2000000000%Z)).
-  split; [reflexivity|]. split; [vm_compute; reflexivity|]. repeat split; vm_compute; reflexivity.
+  intros k r H. destruct (write_int_rules k r) as [c| | |] eqn:E; try reflexivity.
+  apply write_int_ok in E as [Hadm _]. unfold int_adm in Hadm.
+  apply andb_true_iff in Hadm as [Hadm _]. rewrite Hadm in H. discriminate.
 Qed.
-Print Assumptions C12_truncated_bound_refuted.
-
-Theorem C12_full_refuted : ~ C12_full_statement.
-Proof.
-  intro H.
-  destruct C12_inverted_bounds_refuted as [env [idx [d [o [fv [Hwf [Hw [Hty [Hv Hr]]]]]]]]].
-  specialize (H re_class_count (fun s => eq_refl) env idx d o fv Hwf Hw Hty).
-  congruence.
-Qed.
-Print Assumptions C12_full_refuted.
+Print Assumptions C12_out_of_range_bound_rejected.
 
 (* the pieces the theorem rests on, each for all inputs *)
 Theorem C12_integer_bounds : forall rm defined k r c z,
-  int_adm k r = true -> write_int_rules k r = Ok c ->
+  write_int_rules k r = Ok c ->
   eval_scalar rm defined c (VInt z) = int_rule_ok r z.
 Proof. exact int_sem. Qed.
 Print Assumptions C12_integer_bounds.
